@@ -635,12 +635,20 @@ class Verifier(Engine):
             bv = z3.Const(f"ax.{p}", self.sort(ty))
             bvs.append(bv)
             st.env[p] = V(bv, ty)
-        reqs = [self.clause(t, st) for t in c.requires.values()]
-        res = self.pure_app(c, {p: st.env[p] for p, _ in params}, rty)
-        post = st.fork()
-        post.env["result"] = res
-        post.old = st.snapshot()
-        ens = [self.clause(t, post) for t in c.ensures.values()]
+        saved_fr = getattr(self, "fields_read", None)
+        self.fields_read = set()
+        try:
+            reqs = [self.clause(t, st) for t in c.requires.values()]
+            res = self.pure_app(c, {p: st.env[p] for p, _ in params}, rty)
+            post = st.fork()
+            post.env["result"] = res
+            post.old = st.snapshot()
+            ens = [self.clause(t, post) for t in c.ensures.values()]
+            # a "pure" function whose contract reads mutable fields is a function of its arguments *and of those fields*: its
+            # symbol may only be used where they cannot change (checked in pure_app)
+            c.heap_reads = {f"{rec.name}.{f}" for (rec, f) in self.fields_read if f in rec.mutable}  # type: ignore[attr-defined]
+        finally:
+            self.fields_read = saved_fr
         if not ens:
             return
         body = z3.Implies(z3.And(*reqs), z3.And(*ens)) if reqs else z3.And(*ens)
